@@ -102,6 +102,111 @@ Proof.
   - unfold obj_minimize_deltas in H. destruct (negb _); [discriminate|]. destruct (G _ _ H) as (A & B & C). auto.
   - unfold obj_minimize_delta, obj_minimize_deltas in H. destruct (negb _); [discriminate|]. destruct (G _ _ H) as (A & B & C). auto.
 Qed.
+
+(** * the caller writes the public members between calls; calls abandoned by a throwing objective *)
+
+Lemma set_obj_length : forall (objs : list (@nmobj T)) k x, length (set_obj objs k x) = length objs.
+Proof. induction objs as [|a rest IH]; intros k x; [reflexivity|]. destruct k; cbn; [reflexivity|]. now rewrite IH. Qed.
+
+(** a request with the caller's own arguments does not look at the objects *)
+Lemma req_call_given objs objs' r : req_given r = true -> req_call Ops objs r = req_call Ops objs' r.
+Proof.
+  destruct r as [f pp|f k|f st ds|f st d]; cbn; try discriminate; try reflexivity.
+  - destruct st as [l|k i|k]; try discriminate. destruct ds as [[l2|k i|k]|]; try discriminate; reflexivity.
+  - destruct st as [l|k i|k]; try discriminate; reflexivity.
+Qed.
+
+(** ... so its answer is the same whatever state the objects are in: whatever the caller wrote into nfunc, mpts, ndim, fmin, y,
+    current_simplex of any object, and whatever an abandoned call left there *)
+Theorem objs_call_any_state objs objs' ftols ob r : req_given r = true ->
+  rmap snd (objs_call Ops objs ftols ob r) = rmap snd (objs_call Ops objs' ftols ob r).
+Proof. intros H. rewrite !objs_call_fresh. now rewrite (req_call_given objs objs' r H). Qed.
+
+(** the members after a write are what was written (and the other members, and the other objects, are untouched) *)
+Lemma objs_put_members objs k p : (k < length objs)%nat ->
+  let ob := obj_at Ops objs k in let ob' := obj_at Ops (objs_put Ops objs k p) k in
+  match p with
+  | PutY y => ob_y ob' = y /\ ob_simplex ob' = ob_simplex ob
+  | PutS s => ob_simplex ob' = s /\ ob_y ob' = ob_y ob
+  | PutN _ _ _ _ => ob_simplex ob' = ob_simplex ob /\ ob_y ob' = ob_y ob
+  end.
+Proof. intros Hk. cbv zeta. unfold objs_put. rewrite (obj_at_set_obj objs k _ Hk). destruct p; cbn; auto. Qed.
+
+(** minimize(m.current_simplex, f) after the caller assigned s to m.current_simplex (and anything to the other members, before or
+    after): the answer of a fresh object on s *)
+Theorem objs_call_written_simplex objs k s ps ftols ob f : (k < length objs)%nat ->
+  Forall (fun p => match p with PutS _ => False | _ => True end) ps ->
+  rmap snd (objs_call Ops (fold_left (fun os p => objs_put Ops os k p) ps (objs_put Ops objs k (PutS s))) ftols ob (ReqGS f k))
+  = fresh_call Ops (nth ob ftols (n0 Ops)) (CallG f s).
+Proof.
+  intros Hk Hps. rewrite objs_call_fresh. cbn [req_call]. f_equal. f_equal.
+  assert (forall os, (k < length os)%nat -> ob_simplex (obj_at Ops os k) = s ->
+            ob_simplex (obj_at Ops (fold_left (fun os p => objs_put Ops os k p) ps os) k) = s) as G.
+  { induction Hps as [|p ps Hp _ IH]; intros os Hl Hs; [exact Hs|]. cbn [fold_left]. apply IH.
+    - unfold objs_put. now rewrite set_obj_length.
+    - pose proof (objs_put_members os k p Hl) as M. cbv zeta in M. destruct p as [y0|s0|a b c d]; [destruct M as [_ M]; congruence|cbn in Hp; tauto|destruct M as [M _]; congruence]. }
+  apply G.
+  - unfold objs_put. now rewrite set_obj_length.
+  - pose proof (objs_put_members objs k (PutS s) Hk) as M. cbv beta iota zeta in M. destruct M as [M _]. exact M.
+Qed.
+
+(** the trace only grows, and it starts with the vertices of the stated initial simplex in row order: whenever the objective
+    throws, the vertices it has been asked for so far are the first rows of pp *)
+Lemma amotry_trace f s ndim ihi fac : exists l, nm_tr (fst (amotry Ops f s ndim ihi fac)) = l ++ nm_tr s.
+Proof. unfold amotry. destruct (nltb _ _ _); cbn; eexists [_]; reflexivity. Qed.
+Lemma shrink_trace_grows : forall (rows : list (list T)) i ilo tr, exists l, shrink_trace rows i ilo tr = l ++ tr.
+Proof.
+  induction rows as [|r rest IH]; intros i ilo tr; cbn; [exists []; reflexivity|].
+  destruct (Nat.eqb i ilo); [apply IH|]. destruct (IH (S i) ilo (r :: tr)) as [l ->]. exists (l ++ [r]). now rewrite <- app_assoc.
+Qed.
+Lemma nm_iter_trace f ftol ndim s :
+  match nm_iter Ops f ftol ndim s with
+  | NNext s' => exists l, nm_tr s' = l ++ nm_tr s
+  | NDone o => o_tr o = rev (nm_tr s)
+  | NExit => True
+  end.
+Proof.
+  unfold nm_iter. destruct (nm_extremes Ops (nm_y s)) as [[ilo ihi] inhi].
+  destruct (nltb _ _ _); [reflexivity|]. destruct (Z.geb _ _); [exact I|].
+  set (s0 := mkNM (nm_p s) (nm_y s) (nm_psum s) (nm_nfunc s + 2)%Z (nm_tr s)).
+  pose proof (amotry_trace f s0 ndim ihi (nneg Ops (one Ops))) as [l1 H1].
+  destruct (amotry Ops f s0 ndim ihi (nneg Ops (one Ops))) as [s1 ytry]. cbn [fst] in H1. change (nm_tr s0) with (nm_tr s) in H1.
+  destruct (nleb _ _ _).
+  - pose proof (amotry_trace f s1 ndim ihi (two Ops)) as [l2 H2]. exists (l2 ++ l1). now rewrite H2, H1, app_assoc.
+  - destruct (ngeb _ _ _); [|exists l1; exact H1].
+    pose proof (amotry_trace f s1 ndim ihi (half Ops)) as [l2 H2].
+    destruct (amotry Ops f s1 ndim ihi (half Ops)) as [s2 ytry2]. cbn [fst] in H2.
+    destruct (ngeb _ _ _); [|exists (l2 ++ l1); now rewrite H2, H1, app_assoc].
+    cbn [nm_tr]. destruct (shrink_trace_grows (shrink_rows Ops (nm_p s2) 0 ilo (row (nm_p s2) ilo)) 0 ilo (nm_tr s2)) as [l3 ->].
+    exists (l3 ++ l2 ++ l1). now rewrite H2, H1, !app_assoc.
+Qed.
+Lemma nm_loop_trace f : forall fuel ftol ndim s o, nm_loop Ops f fuel ftol ndim s = Ok o -> exists l, o_tr o = rev (nm_tr s) ++ l.
+Proof.
+  induction fuel as [|k IH]; intros ftol ndim s o H; [discriminate|]. cbn [nm_loop] in H.
+  pose proof (nm_iter_trace f ftol ndim s) as HT. destruct (nm_iter Ops f ftol ndim s) as [o'|s'|]; try discriminate.
+  - injection H as <-. exists []. now rewrite app_nil_r.
+  - destruct HT as [l HT]. apply IH in H. destruct H as [l2 H]. exists (rev l ++ l2). now rewrite H, HT, rev_app_distr, app_assoc.
+Qed.
+Theorem minimize_general_trace f ftol pp o : minimize_general Ops f ftol pp = Ok o -> exists l, o_tr o = pp ++ l.
+Proof.
+  unfold minimize_general. destruct pp as [|r0 rest]; [discriminate|]. destruct (Nat.ltb _ _); [discriminate|]. destruct (negb _); [discriminate|].
+  intros H. apply nm_loop_trace in H. cbn [nm_tr] in H. now rewrite rev_involutive in H.
+Qed.
+
+(** an abandoned call has asked for the first n points of the trace of the completed call, and nothing else *)
+Lemma abandoned_call_spec ftol c n pts : abandoned_call Ops ftol c n = Ok (Some pts) ->
+  exists o, fresh_call Ops ftol c = Ok o /\ pts = firstn n (o_tr o) /\ length pts = n.
+Proof.
+  unfold abandoned_call. destruct (fresh_call Ops ftol c) as [o| | |]; cbn; try discriminate.
+  destruct (Nat.leb n (length (o_tr o))) eqn:E; [|discriminate]. intros H. injection H as <-.
+  exists o. split; [reflexivity|]. split; [reflexivity|]. apply Nat.leb_le in E. now apply firstn_length_le.
+Qed.
+Theorem abandoned_general_spec f ftol pp n pts : abandoned_call Ops ftol (CallG f pp) n = Ok (Some pts) ->
+  length pts = n /\ exists l, pts = firstn n (pp ++ l).
+Proof.
+  intros H. apply abandoned_call_spec in H. destruct H as (o & Ho & -> & Hl). split; [exact Hl|].
+  cbn [fresh_call] in Ho. apply minimize_general_trace in Ho. destruct Ho as [l ->]. now exists l.
+Qed.
 End Members.
 
 Section Restart.
@@ -166,3 +271,14 @@ Example ex_restart : exists objs1 o1 objs2 o2,
 Proof.
   do 4 eexists. cbv zeta. split; [vm_compute; reflexivity|]. split; [vm_compute; reflexivity|]. vm_compute. discriminate.
 Qed.
+
+(** non-vacuity: the caller overwrites every public member (y with values "better" than any the objective takes, current_simplex with
+    the simplex of the next request, the counters with garbage); a call abandoned at its second evaluation; the calls afterwards *)
+Example ex_writes_abandon : exists o pts,
+  let fq := fun p : list Z => nth 0 p 0 * nth 0 p 0 + 3 * (nth 1 p 0 - 3) * (nth 1 p 0 - 3) in
+  let pp := [[20; -31]; [36; -31]; [20; -15]] in
+  let objs := objs_put ZOps (objs_put ZOps (objs_put ZOps [obj_fresh ZOps] 0 (PutS pp)) 0 (PutY [-1000; -1000; -1000])) 0 (PutN 4999 3 2 (-1000)) in
+  rmap snd (objs_call ZOps objs [1] 0 (ReqGS fq 0)) = Ok o /\ fresh_call ZOps 1 (CallG fq pp) = Ok o /\
+  abandoned_call ZOps 1 (CallG fq pp) 2 = Ok (Some pts) /\ pts = [[20; -31]; [36; -31]] /\
+  rmap snd (objs_call ZOps (objs_abandon objs 0 (mkObj 7 3 2 0 [1; 2; 3] pp)) [1] 0 (ReqG fq pp)) = Ok o.
+Proof. do 2 eexists. cbv zeta. repeat split; vm_compute; reflexivity. Qed.
